@@ -417,18 +417,23 @@ fn get_targets_recursive(
         // confirm their version of `cargo` (not `cargo-fmt`) is >= v1.51
         // https://github.com/rust-lang/cargo/pull/8994
         for dependency in &package.dependencies {
-            if dependency.path.is_none() || visited.contains(&dependency.name) {
+            if dependency.path.is_none() {
                 continue;
             }
 
             let manifest_path = PathBuf::from(dependency.path.as_ref().unwrap()).join("Cargo.toml");
+            // Two different local packages may have the same name: remember paths, not names.
+            let visited_key = manifest_path.to_string_lossy().into_owned();
+            if visited.contains(&visited_key) {
+                continue;
+            }
             if manifest_path.exists()
                 && !metadata
                     .packages
                     .iter()
                     .any(|p| p.manifest_path.eq(&manifest_path))
             {
-                visited.insert(dependency.name.to_owned());
+                visited.insert(visited_key);
                 get_targets_recursive(Some(&manifest_path), targets, visited)?;
             }
         }
